@@ -51,6 +51,17 @@ def hCloser : Handler := fun _ ps b =>
   ⟨[⟨200, true, List.replicate n 0x78⟩], b, true⟩
 def hErr : Handler := fun _ _ b => ⟨[], b, false⟩
 def hSilent : Handler := fun _ _ b => ⟨[], b, true⟩
+/-- `/closerep/:how`: the close token of the response headers after add / replace / remove edits (evaluated with the
+    header-collection model itself) -/
+def hCloseRep : Handler := fun _ ps b =>
+  let how := (param ps "how").getD []
+  let h0 := Headers.newNodate
+  let h :=
+    if how == str "toclose" then (h0.add (str "connection") (str "keep-alive")).replace (str "connection") (str "close")
+    else if how == str "tokeep" then h0.setConnectionClose.replace (str "connection") (str "keep-alive")
+    else if how == str "twice" then ((h0.add (str "Connection") (str "close")).add (str "x-a") (str "1")).replace (str "CONNECTION") (str "upgrade")
+    else ((h0.add (str "connection") (str "x")).remove (str "Connection")).add (str "connection") (str "Close")
+  ⟨[⟨200, h.close, str "rep"⟩], b, true⟩
 /-- `/continue`: interim 100 first, then the body is read and echoed -/
 def hContinue : Handler := fun _ _ b =>
   match readAll b with
@@ -79,9 +90,10 @@ def harnessCfg (max : Nat) : Cfg :=
                (.post, str "/swallow"), (.get, str "/close"), (.get, str "/err"), (.get, str "/bigr/:n"),
                (.get, str "/p/:a/:b"), (.get, str "/errint"), (.get, str "/closeempty/:how"), (.get, str "/closer/:n"),
                (.get, str "/silent"), (.get, str "/errkind/:k"),
-               (.get, str "/gecho"), (.put, str "/gecho"), (.delete, str "/gecho"), (.post, str "/continue")]
+               (.get, str "/gecho"), (.put, str "/gecho"), (.delete, str "/gecho"), (.post, str "/continue"),
+               (.get, str "/closerep/:how")]
     handler := fun i => [hEcho, hNoread, hReadK, hEarly, hSwallow, hClose, hErr, hBigr, hP, hErr, hCloseEmpty, hCloser, hSilent, hErr,
-                         hEcho, hEcho, hEcho, hContinue].getD i hFallback
+                         hEcho, hEcho, hEcho, hContinue, hCloseRep].getD i hFallback
     fallback := hFallback }
 
 def showResp (r : Resp) : String := s!"R{r.status}:{if r.close then 1 else 0}:{hex r.body}"
